@@ -45,7 +45,7 @@ def ev(e, env):
     if isinstance(e, L.MathFunction):
         return env.fun(e.function, [ev(a, env) for a in e.args])
     if isinstance(e, L.ArrayAccess):
-        return env.mem(e.array.name, [evi(i, env) for i in e.indices])
+        return env.mem(e.array.name, [ev(i, env) for i in e.indices])
     if isinstance(e, L.Conditional):
         if evb(e.condition, env):
             return ev(e.true, env)
@@ -80,45 +80,12 @@ def evb(e, env):
     return ev(e, env) != 0
 
 
-def evi(e, env):
-    """Integer value of an LNodes index expression."""
-    if isinstance(e, numbers.Integral):
-        return e
-    if isinstance(e, L.LiteralInt):
-        return e.value
-    if isinstance(e, L.Symbol):
-        return env.symi(e.name)
-    if isinstance(e, L.MultiIndex):
-        return evi(e.global_index, env)
-    if isinstance(e, L.Neg):
-        return -evi(e.arg, env)
-    if isinstance(e, L.Add):
-        return evi(e.lhs, env) + evi(e.rhs, env)
-    if isinstance(e, L.Sub):
-        return evi(e.lhs, env) - evi(e.rhs, env)
-    if isinstance(e, L.Mul):
-        return evi(e.lhs, env) * evi(e.rhs, env)
-    if isinstance(e, L.Sum):
-        acc = 0
-        for a in e.args:
-            acc = acc + evi(a, env)
-        return acc
-    if isinstance(e, L.Product):
-        acc = 1
-        for a in e.args:
-            acc = acc * evi(a, env)
-        return acc
-    if isinstance(e, L.ArrayAccess):
-        return env.memi(e.array.name, [evi(i, env) for i in e.indices])
-    raise TypeError(f"evi: not an integer index expression: {type(e).__name__}")
-
-
 def is_access(e, name, nidx):
     """e is an ArrayAccess of array `name` with nidx indices."""
     return isinstance(e, L.ArrayAccess) and e.array.name == name and len(e.indices) == nidx
 
 
-def index(e, k):
+def idx(e, k):
     return e.indices[k]
 
 
@@ -135,3 +102,53 @@ def prod(xs):
     for x in xs:
         acc = acc * x
     return acc
+
+
+# ---------------------------------------------------------------- C06: integral_data
+ITG_TYPES = ("cell", "exterior_facet", "interior_facet", "vertex", "ridge")
+
+
+def nondecr(xs):
+    return all([a <= b for a, b in zip(xs, xs[1:])])
+
+
+def distinct(xs):
+    return all([xs[i] != xs[j] for i in range(len(xs)) for j in range(i + 1, len(xs))])
+
+
+def count_types_before(ir, t):
+    n = 0
+    for s in ITG_TYPES[:t]:
+        n = n + len(ir.subdomain_ids[s])
+    return n
+
+
+def sumlen(xs):
+    n = 0
+    for x in xs:
+        n = n + len(x)
+    return n
+
+
+def _same_triple(ir, result, typ, pos, j):
+    return all([result.ids[pos] == ir.subdomain_ids[typ][j], result.names[pos] == ir.integral_names[typ][j],
+                result.domains[pos] is ir.integral_domains[typ][j]])
+
+
+def segment_is_paired_permutation(ir, result, t):
+    """Segment t of (ids, names, domains) is one permutation of the type's (id, name, domain) triples:
+    every output triple is an input triple and every input triple occurs (names are distinct)."""
+    typ = ITG_TYPES[t]
+    base = count_types_before(ir, t)
+    n = len(ir.subdomain_ids[typ])
+    if len(result.ids) < base + n or len(result.names) < base + n or len(result.domains) < base + n:
+        return False
+    onto = all([any([_same_triple(ir, result, typ, base + k, j) for j in range(n)]) for k in range(n)])
+    into = all([any([_same_triple(ir, result, typ, base + k, j) for k in range(n)]) for j in range(n)])
+    return all([onto, into])
+
+
+def segment_nondecr(ir, result, t):
+    base = count_types_before(ir, t)
+    n = len(ir.subdomain_ids[ITG_TYPES[t]])
+    return nondecr(result.ids[base : base + n])
